@@ -18,7 +18,7 @@
    (lifetime profile: every mode, empty bundles, bundles naming dead entities, every order of revoke / fire / despawn /
    collect; live entities, state drops and table sizes compared after every op). *)
 From Cobweb Require Import Machine.
-From CobwebProofs Require Import RunnerInv LifetimeSpec WorldReactorSpec SigSpec.
+From CobwebProofs Require Import RunnerInv LifetimeSpec WorldReactorSpec SigSpec SigInvSpec.
 
 Theorem persistent_handle_is_never_counted_partial : forall s w, handle_drop (HPersist s) w = w /\ handle_clone (HPersist s) w = w.
 Proof. exact persistent_handle_is_inert. Qed.
@@ -34,6 +34,12 @@ Theorem signals_come_only_from_refcounted_registration : forall (P : program) c 
   g_auto (fst (apply_prim P c w)) = g_auto w \/
   exists b s m, c = CRegister b s m /\ m <> Persistent /\ g_auto (fst (apply_prim P c w)) = s :: g_auto w.
 Proof. exact signal_prepared_only_by_refcounted_registration. Qed.
+(* the signal table is well formed in every reachable state: a live signal has a positive count (so `drop takes one` and
+   `last reference sends once` below always apply to it), ids are pairwise distinct and below the id counter (a newly
+   prepared signal never collides with a live one) *)
+Theorem signal_table_is_well_formed : forall (P : program) (fuel : nat) (w' : world), run P fuel = Ok w' ->
+  (forall g e n, In (g, (e, n)) (sigs w') -> 1 <= n /\ g < next_sig w') /\ NoDup (map fst (sigs w')).
+Proof. exact signal_table_well_formed. Qed.
 Theorem clone_adds_one_reference_partial : forall g s e n w, alookup g (sigs w) = Some (e, n) ->
   sigs (handle_clone (HAuto g s) w) = aset g (e, n + 1) (sigs w) /\ gc_chan (handle_clone (HAuto g s) w) = gc_chan w.
 Proof. exact clone_adds_one. Qed.
@@ -71,6 +77,7 @@ Print Assumptions persistent_registration_changes_no_state_partial.
 Print Assumptions persistent_reactors_are_never_collected.
 Print Assumptions collected_only_if_signalled_everywhere.
 Print Assumptions signals_come_only_from_refcounted_registration.
+Print Assumptions signal_table_is_well_formed.
 Print Assumptions clone_adds_one_reference_partial.
 Print Assumptions drop_takes_one_reference_partial.
 Print Assumptions last_reference_sends_the_reactor_once_partial.
